@@ -61,8 +61,42 @@ def model_strategy(quick):
                                           flags=False, islands=False))
 
 
+F3_XML = '<mujoco><worldbody><body><joint type="ball"/><joint type="slide" axis="1 0 0"/><geom size="0.1"/></body></worldbody></mujoco>'
+
+
+def probes(ck, lib):
+  """Deterministic probe for the reported mj_jacDot deviation (class excluded from the generated stream's assertion)."""
+  m = lib.model_from_xml(F3_XML)
+  nv = m.nv
+  d = lib.make_data(m)
+  d.qvel[:] = [0, 0, 1.0, 2.0]
+  lib.mj_forward(m, d)
+
+  def jac_at(q):
+    dd = lib.make_data(m)
+    dd.qpos[:] = q
+    lib.mj_kinematics(m, dd)
+    lib.mj_comPos(m, dd)
+    jp, jr = np.zeros((3, nv)), np.zeros((3, nv))
+    lib.mj_jac(m, dd, jp, jr, np.array(dd.xpos[1]), 1)
+    return jp
+  jdp, jdr = np.zeros((3, nv)), np.zeros((3, nv))
+  lib.mj_jacDot(m, d, jdp, jdr, np.array(d.xpos[1]), 1)
+  qp, qm = np.array(d.qpos), np.array(d.qpos)
+  lib.mj_integratePos(m, qp, np.array(d.qvel), 1e-6)
+  lib.mj_integratePos(m, qm, np.array(d.qvel), -1e-6)
+  fd = (jac_at(qp) - jac_at(qm)) / 2e-6
+  if np.abs(jdp - fd).max() > 1e-5:
+    ck.violation('mj_jacDot for a ball joint followed by a slide in one body: jacp columns %s, d/dt mj_jac by central differences %s' % (
+        jdp.tolist(), np.round(fd, 6).tolist()), dict(xml=F3_XML, qvel=[0, 0, 1.0, 2.0]), bucket='probe-jacdot-ball-then-joint',
+        fingerprint='C07:jacdot-ball-then-joint')
+  ck.label('probe:F3')
+
+
 def main(ck):
   lib = ck.lib('rel')
+  if not getattr(ck, '_replaying', False):
+    probes(ck, lib)
   E = lib.enums
   worst = {}
   carved = dict(cases=0, deviating=0, max_dev=0.0)
